@@ -232,7 +232,7 @@ def c14(run, tier):
     races = glob.glob(racelog + ".*")
     for rf in races[:5]:
         txt = open(rf).read()
-        keep = os.path.join("/verif/replays", run.pid)
+        keep = os.path.join(run.root, "replays", run.pid)
         os.makedirs(keep, exist_ok=True)
         dst = os.path.join(keep, "race-" + os.path.basename(rf) + ".txt")
         open(dst, "w").write(txt)
@@ -274,7 +274,7 @@ def c14(run, tier):
         if why:
             problems.append(("blocks", "-c %d vs -c 1: %s" % (n, why)))
         for a, detail in problems:
-            keep = os.path.join("/verif/replays", run.pid)
+            keep = os.path.join(run.root, "replays", run.pid)
             os.makedirs(keep, exist_ok=True)
             dst = os.path.join(keep, "cli-%s-%d.json" % (label, nruns))
             json.dump({"fam": "C14.cli", "nf": nf, "n": n, "prints": sorted(prints), "env": {k: v for k, v in env.items()}, "big": big, "why": detail}, open(dst, "w"))
@@ -392,7 +392,7 @@ def record_and_judge(run, cmd, args, label, replay_kind, aspects):
     from infra import Infra
     t = os.path.join(run.work, "%s.ndjson" % label)
     rp = os.path.join(run.work, "%s.report.json" % label)
-    p = run.harness_cmd([cmd, "-out", t, "-report", rp, "-replays", os.path.join("/verif/replays", run.pid)] + args, label, timeout=1800)
+    p = run.harness_cmd([cmd, "-out", t, "-report", rp, "-replays", os.path.join(run.root, "replays", run.pid)] + args, label, timeout=1800)
     if p.returncode != 0 or not os.path.exists(rp):
         raise Infra("%s failed: %s" % (cmd, (p.stdout + p.stderr)[-1500:]))
     rep = json.load(open(rp))
@@ -504,7 +504,7 @@ def c15(run, tier):
     run.stage_info.append({"stage": "fuzz", "inputs": fz["inputs"], "distinct": fz["distinct"], "got_past_first_stage": fz["nontrivial"], "problems": fz["kinds"]})
     for s in (fz.get("samples") or [])[:2]:
         run.samples.append({"fuzz_input": s})
-    rdir = os.path.join("/verif/replays", run.pid)
+    rdir = os.path.join(run.root, "replays", run.pid)
     for i, pr in enumerate(fz.get("problems") or []):
         os.makedirs(rdir, exist_ok=True)
         path = os.path.join(rdir, "fuzz-%d.json" % i)
